@@ -344,8 +344,18 @@ func appTraffic(h *lp.H, kind string) string {
 	b := broker.New()
 	I, T := 100, 160
 	var mu sync.Mutex
+	var busyAlias uint32
 	mode := kind
 	b.Policy = func(inc *broker.Inc, m message.Message) bool {
+		if cr, isClose := m.(*message.DownstreamCloseRequest); isClose && kind == "closebusy" {
+			// a busy downstream is being closed: chunks that were on their way are delivered before the close response
+			for k := 0; k < 40; k++ {
+				inc.Send(&message.DownstreamChunk{StreamIDAlias: busyAlias, UpstreamOrAlias: &message.UpstreamInfo{SessionID: "s", SourceNodeID: "n0"},
+					StreamChunk: &message.StreamChunk{SequenceNumber: uint32(k + 1), DataPointGroups: []*message.DataPointGroup{}}, ExtensionFields: &message.DownstreamChunkExtensionFields{}})
+			}
+			inc.Send(&message.DownstreamCloseResponse{RequestID: cr.RequestID, ResultCode: message.ResultCodeSucceeded, ExtensionFields: &message.DownstreamCloseResponseExtensionFields{}})
+			return true
+		}
 		r, ok := m.(*message.UpstreamMetadata)
 		if !ok {
 			return false
@@ -383,7 +393,27 @@ func appTraffic(h *lp.H, kind string) string {
 		conn.Close(ctx)
 		cancel()
 	}()
-	for k := 0; k < 2; k++ {
+	if kind == "closebusy" {
+		octx, ocancel := context.WithTimeout(context.Background(), 2*time.Second)
+		d, err := conn.OpenDownstream(octx, []*message.DownstreamFilter{{SourceNodeID: "n0", DataFilters: []*message.DataFilter{{Name: "#", Type: "#"}}}})
+		ocancel()
+		if err != nil {
+			return "err open"
+		}
+		b.Lock()
+		if ds := b.Downs[d.ID]; ds != nil {
+			busyAlias = ds.Alias
+		}
+		b.Unlock()
+		cctx, ccancel := context.WithTimeout(context.Background(), 2*time.Second)
+		t0 := time.Now()
+		err = d.Close(cctx)
+		ccancel()
+		if err != nil || time.Since(t0) > time.Second {
+			h.Violate(fmt.Sprintf("closing a downstream while 40 of its chunks were still arriving: Close returned %v after %v (the broker answered the close request and every ping at once)", err, time.Since(t0).Round(time.Millisecond)))
+		}
+	}
+	for k := 0; k < 2 && kind != "closebusy"; k++ {
 		ctx, cancel := context.WithTimeout(context.Background(), 40*time.Millisecond)
 		if kind == "refused" {
 			cancel()
@@ -622,7 +652,7 @@ func main() {
 	h.Case("chunk burst, wire level")
 	do("wireburst 1100")
 	h.Distinct("wireburst")
-	for _, k := range []string{"abandon", "refused"} {
+	for _, k := range []string{"abandon", "refused", "closebusy"} {
 		h.Case("application traffic: " + k)
 		do("apptraffic " + k)
 		h.Distinct("apptraffic/" + k)
